@@ -49,6 +49,11 @@ package resource
 //@ // mu protects byId, rngMu protects rng (struct comments); the write option/interceptor callbacks run without a lock
 //@ type Value
 //@   guarded_by mu: value, changeTime
+//@ // representation invariant of a Collection: a clock, a map, and every entry a non-nil item with a non-nil body
+//@ pure func wfColl(c) = c != nil && c.config != nil && !isnil(c.config.clock) && c.byId != nil &&
+//@ |   (forall id string :: has(c.byId, id) ==> c.byId[id] != nil && !isnil(c.byId[id].body))
+//@ pure func sortedById(vs) = forall i int, j int :: 0 <= i && i < j && j < len(vs) ==> vs[i].id <= vs[j].id
+//@ pure func excluded(rc, id, m) = rc.Include != nil && !rc.Include(id, m)
 //@ type Collection
 //@   guarded_by mu: byId
 //@   guarded_by rngMu: config.rng
@@ -56,8 +61,21 @@ package resource
 //@ // helpers that are only ever called with the collection's lock held (every call site is checked against this)
 //@ func (*Collection).itemSlice(readConfig) (res)
 //@   option locks caller
-//@   option only guard lock call
-//@   requires recv != nil && held(recv.mu)
+//@   requires wfColl(recv) && held(recv.mu) && readConfig != nil
+//@   // C01/C04/C08: the snapshot is exactly the stored items the read request does not exclude, each once, as stored
+//@   ensures [members@C01+C04+C08] forall j int :: 0 <= j && j < len(res) ==> has(recv.byId, res[j].id) && res[j].body == recv.byId[res[j].id].body &&
+//@   |   res[j].changeTime == recv.byId[res[j].id].changeTime && !excluded(readConfig, res[j].id, res[j].body)
+//@   ensures [distinct@C01+C04] forall i int, j int :: 0 <= i && i < j && j < len(res) ==> res[i].id != res[j].id
+//@   ensures [complete@C01+C04+C08] forall id string :: has(recv.byId, id) && !excluded(readConfig, id, recv.byId[id].body) ==> (exists j int :: 0 <= j && j < len(res) && res[j].id == id)
+//@   ensures [all-when-unfiltered@C01] readConfig.Include == nil ==> len(res) == len(recv.byId)
+//@   ensures [fresh] fresh(res)
+//@   modifies nothing
+//@   loop 0 (k):
+//@     invariant 0 <= k && k <= len(recv.byId) && len(res) <= k && (readConfig.Include == nil ==> len(res) == k) && fresh(res)
+//@     invariant forall j int :: 0 <= j && j < len(res) ==> has(recv.byId, res[j].id) && ridx(res[j].id) < k && res[j].body == recv.byId[res[j].id].body &&
+//@     |   res[j].changeTime == recv.byId[res[j].id].changeTime && !excluded(readConfig, res[j].id, res[j].body)
+//@     invariant forall i int, j int :: 0 <= i && i < j && j < len(res) ==> res[i].id != res[j].id
+//@     invariant forall id string :: has(recv.byId, id) && ridx(id) < k && !excluded(readConfig, id, recv.byId[id].body) ==> (exists j int :: 0 <= j && j < len(res) && res[j].id == id)
 //@ func (*Collection).genID() (id, err)
 //@   option locks caller
 //@   option only guard lock call
@@ -77,12 +95,142 @@ package resource
 //@ callback readOptionFunc: closed
 //@ callback optionFunc: closed
 //@
+//@ property C01 C05
+//@ // ---- options: each one sets exactly its own field of the request (checked frame: nothing else is written), so any
+//@ // combination of options configures the call field by field and no option can drop or replace another one's setting ----
+//@ func WithUpdateMask$1(request)
+//@   requires request != nil
+//@   ensures [sets] request.UpdateMask == mask
+//@   modifies request.UpdateMask
+//@ func WithResetMask$1(request)
+//@   requires request != nil
+//@   ensures [sets] request.resetMask == mask
+//@   modifies request.resetMask
+//@ func InterceptBefore$1(request)
+//@   requires request != nil
+//@   ensures [sets] request.interceptBefore == interceptor
+//@   modifies request.interceptBefore
+//@ func InterceptAfter$1(request)
+//@   requires request != nil
+//@   ensures [sets] request.interceptAfter == interceptor
+//@   modifies request.interceptAfter
+//@ func WithAllFieldsWritable$1(request)
+//@   requires request != nil
+//@   ensures [sets] request.nilWritableFields == true
+//@   modifies request.nilWritableFields
+//@ func WithExpectedValue$1(request)
+//@   requires request != nil
+//@   ensures [sets] request.expectedValue == expectedValue
+//@   modifies request.expectedValue
+//@ func WithExpectAbsent$1(request)
+//@   requires request != nil
+//@   ensures [sets] request.expectAbsent == true
+//@   modifies request.expectAbsent
+//@ func WithAllowMissing$1(request)
+//@   requires request != nil
+//@   ensures [sets] request.allowMissing == allowMissing
+//@   modifies request.allowMissing
+//@ func WithExpectedCheck$1(request)
+//@   requires request != nil
+//@   ensures [sets] request.expectedCheck == fn
+//@   modifies request.expectedCheck
+//@ func WithCreateIfAbsent$1(wr)
+//@   requires wr != nil
+//@   ensures [sets] wr.createIfAbsent == true
+//@   modifies wr.createIfAbsent
+//@ func WithCreatedCallback$1(wr)
+//@   requires wr != nil
+//@   ensures [sets] wr.createdCallback == cb
+//@   modifies wr.createdCallback
+//@ func WithGenIDIfAbsent$1(wr)
+//@   requires wr != nil
+//@   ensures [sets] wr.genEmptyID == true
+//@   modifies wr.genEmptyID
+//@ func WithIDCallback$1(wr)
+//@   requires wr != nil
+//@   ensures [sets] wr.idCallback == cb
+//@   modifies wr.idCallback
+//@ func WithWriteTime$1(wr)
+//@   requires wr != nil
+//@   ensures [sets] wr.writeTime != nil
+//@   modifies wr.writeTime
+//@ func WithMoreUpdateMask$1(request)
+//@   requires request != nil
+//@   ensures [nil-stays] old(request.UpdateMask) == nil ==> request.UpdateMask == nil
+//@   ensures [union] old(request.UpdateMask) != nil ==> request.UpdateMask != nil && isunion(request.UpdateMask, old(request.UpdateMask), mask)
+//@   modifies request.UpdateMask
+//@ func WithMoreWritableFields$1(request)
+//@   requires request != nil
+//@   ensures [union] request.moreWritableFields != nil && isunion(request.moreWritableFields, old(request.moreWritableFields), writableFields)
+//@   modifies request.moreWritableFields
+//@ func WithReadMask$1(rr)
+//@   requires rr != nil
+//@   ensures [sets] rr.ReadMask == mask
+//@   modifies rr.ReadMask
+//@ func WithUpdatesOnly$1(rr)
+//@   requires rr != nil
+//@   ensures [sets] rr.UpdatesOnly == updatesOnly
+//@   modifies rr.UpdatesOnly
+//@ func WithInclude$1(rr)
+//@   requires rr != nil
+//@   ensures [sets] rr.Include == include
+//@   modifies rr.Include
+//@ func WithBackpressure$1(rr)
+//@   requires rr != nil
+//@   ensures [sets] rr.Backpressure == backpressure
+//@   modifies rr.Backpressure
+//@ func WithClock$1(s)
+//@   requires s != nil
+//@   ensures [sets] s.clock == c
+//@   modifies s.clock
+//@ func WithEquivalence$1(s)
+//@   requires s != nil
+//@   ensures [sets] s.equivalence == e
+//@   modifies s.equivalence
+//@ func WithRNG$1(s)
+//@   requires s != nil
+//@   ensures [sets] s.rng == rng
+//@   modifies s.rng
+//@ func WithInitialValue$1(s)
+//@   requires s != nil
+//@   ensures [sets] s.initialValue == initialValue
+//@   modifies s.initialValue
+//@ func WithWritableFields$1(s)
+//@   requires s != nil
+//@   ensures [sets] s.writableFields == mask
+//@   modifies s.writableFields
+//@ func WithIDInterceptor$1(s)
+//@   requires s != nil
+//@   ensures [sets] s.idInterceptor == interceptor
+//@   modifies s.idInterceptor
+//@
+//@ property C01 C04 C05 C06 C07
 //@ pure func wfValue(r) = r != nil && r.config != nil && !isnil(r.config.clock)
 //@
+//@ // the request is a new object; applying options (dispatched over the module's own option closures, each under the
+//@ // contract above) writes nothing that existed before
+//@ func ComputeReadConfig(opts) (res)
+//@   requires forall i int :: 0 <= i && i < len(opts) ==> !isnil(opts[i]) && (istype(opts[i], readOptionFunc) ==> cast(opts[i], readOptionFunc) != nil)
+//@   ensures [fresh] res != nil && fresh(res)
+//@   modifies nothing
+//@   loop 0 (k):
+//@     invariant 0 <= k && k <= len(opts) && rr != nil && fresh(rr)
+//@
 //@ // ---- Value as a register ----
+//@ pure func readOptsOK(opts) = forall i int :: 0 <= i && i < len(opts) ==> !isnil(opts[i]) && (istype(opts[i], readOptionFunc) ==> cast(opts[i], readOptionFunc) != nil)
+//@
+//@ // the public read: options -> request -> get.  Nothing between the caller's options and fmutils validates the read
+//@ // mask, so get's [mask-valid] precondition is NOT established here (C06: recorded finding, see known_findings.json)
+//@ func (*Value).Get(opts) (res)
+//@   requires wfValue(recv) && readOptsOK(opts)
+//@   ensures [whole] lastcall(ComputeReadConfig).ReadMask == nil ==> equalmsg(res, recv.value)
+//@   ensures [read-only] recv.value == old(recv.value) && recv.changeTime == old(recv.changeTime) && msgval(recv.value) == old(msgval(recv.value))
+//@   modifies nothing
+//@   replay [mask-valid] ReadMaskPanic(0)
+//@
 //@ func (*Value).get(req) (res)
 //@   requires wfValue(recv) && req != nil
-//@   requires [mask-valid] req.ReadMask == nil || isnil(recv.value) || pathsvalid(req.ReadMask.Paths, recv.value)
+//@   requires [mask-valid@C06] req.ReadMask == nil || isnil(recv.value) || pathsvalid(req.ReadMask.Paths, recv.value)
 //@   ensures [nil-mask] req.ReadMask == nil ==> equalmsg(res, recv.value)
 //@   ensures [projection] req.ReadMask != nil && !isnil(recv.value) && len(req.ReadMask.Paths) > 0 ==> sametype(res, recv.value) && msgval(res) == filtered(msgval(recv.value), req.ReadMask.Paths)
 //@   ensures [read-only] recv.value == old(recv.value) && recv.changeTime == old(recv.changeTime) && msgval(recv.value) == old(msgval(recv.value))
@@ -127,7 +275,7 @@ package resource
 //@
 //@ func (*ValueChange).filter(filter) (res)
 //@   requires recv != nil && filter != nil
-//@   requires [mask-valid] filter.fields == nil || isnil(recv.Value) || pathsvalid(filter.fields.Paths, recv.Value)
+//@   requires [mask-valid@C06] filter.fields == nil || isnil(recv.Value) || pathsvalid(filter.fields.Paths, recv.Value)
 //@   ensures [value] res != nil && projected(res.Value, old(recv.Value), filter)
 //@   ensures [rest-kept] res.ChangeTime == old(recv.ChangeTime) && res.SeedValue == old(recv.SeedValue) && res.LastSeedValue == old(recv.LastSeedValue)
 //@   ensures [event-untouched] recv.Value == old(recv.Value) && recv.ChangeTime == old(recv.ChangeTime) && msgval(recv.Value) == old(msgval(recv.Value))
@@ -135,21 +283,55 @@ package resource
 //@
 //@ func (*CollectionChange).filter(filter) (res)
 //@   requires recv != nil && filter != nil
-//@   requires [mask-valid-new] filter.fields == nil || isnil(recv.NewValue) || pathsvalid(filter.fields.Paths, recv.NewValue)
-//@   requires [mask-valid-old] filter.fields == nil || isnil(recv.OldValue) || pathsvalid(filter.fields.Paths, recv.OldValue)
+//@   requires [mask-valid-new@C06] filter.fields == nil || isnil(recv.NewValue) || pathsvalid(filter.fields.Paths, recv.NewValue)
+//@   requires [mask-valid-old@C06] filter.fields == nil || isnil(recv.OldValue) || pathsvalid(filter.fields.Paths, recv.OldValue)
 //@   ensures [new-value] res != nil && projected(res.NewValue, old(recv.NewValue), filter)
 //@   ensures [old-value] projected(res.OldValue, old(recv.OldValue), filter)
 //@   ensures [rest-kept] res.Id == old(recv.Id) && res.ChangeType == old(recv.ChangeType) && res.ChangeTime == old(recv.ChangeTime) && res.SeedValue == old(recv.SeedValue) && res.LastSeedValue == old(recv.LastSeedValue)
 //@   ensures [event-untouched] recv.NewValue == old(recv.NewValue) && recv.OldValue == old(recv.OldValue) && msgval(recv.NewValue) == old(msgval(recv.NewValue)) && msgval(recv.OldValue) == old(msgval(recv.OldValue))
 //@   modifies nothing
 //@
+//@ // ---- Collection as an id -> message map: reads ----
+//@ property C01 C06 C07
+//@ pure func keyOf(c, id) = c.config.idInterceptor == nil ? id : c.config.idInterceptor(id)
+//@
+//@ func (*Collection).Get(id, opts) (msg, found)
+//@   requires wfColl(recv) && readOptsOK(opts)
+//@   ensures [exists] found == has(recv.byId, keyOf(recv, id))
+//@   ensures [absent] !found ==> isnil(msg)
+//@   ensures [whole] found && readConfig.ReadMask == nil ==> equalmsg(msg, recv.byId[keyOf(recv, id)].body)
+//@   ensures [projection] found && readConfig.ReadMask != nil && len(readConfig.ReadMask.Paths) > 0 ==>
+//@   |   sametype(msg, recv.byId[keyOf(recv, id)].body) && msgval(msg) == filtered(msgval(recv.byId[keyOf(recv, id)].body), readConfig.ReadMask.Paths)
+//@   ensures [read-only] recv.byId == old(recv.byId) && (forall k string :: has(recv.byId, k) == old(has(recv.byId, k)) && recv.byId[k] == old(recv.byId[k]))
+//@   ensures [stored-untouched] found ==> msgval(recv.byId[keyOf(recv, id)].body) == old(msgval(recv.byId[keyOf(recv, id)].body))
+//@   modifies nothing
+//@   replay [mask-valid] ReadMaskPanic(1)
+//@
+//@ func (*Collection).List(opts) (res)
+//@   requires wfColl(recv) && readOptsOK(opts)
+//@   // the listing is the id-sorted snapshot of the items the request does not exclude, each projected through the read mask
+//@   ensures [count] len(res) == len(tmp)
+//@   ensures [sorted] sortedById(tmp)
+//@   ensures [strictly-sorted] forall i int, j int :: 0 <= i && i < j && j < len(tmp) ==> tmp[i].id < tmp[j].id
+//@   ensures [members] forall j int :: 0 <= j && j < len(tmp) ==> has(recv.byId, tmp[j].id) && tmp[j].body == recv.byId[tmp[j].id].body && !excluded(readConfig, tmp[j].id, tmp[j].body)
+//@   ensures [complete] forall id string :: has(recv.byId, id) && !excluded(readConfig, id, recv.byId[id].body) ==> (exists j int :: 0 <= j && j < len(tmp) && tmp[j].id == id)
+//@   ensures [all-when-unfiltered] readConfig.Include == nil ==> len(res) == len(recv.byId)
+//@   ensures [values] forall j int :: 0 <= j && j < len(res) ==> projected(res[j], tmp[j].body, filter)
+//@   ensures [read-only] recv.byId == old(recv.byId) && (forall k string :: has(recv.byId, k) == old(has(recv.byId, k)) && recv.byId[k] == old(recv.byId[k]))
+//@   modifies nothing
+//@   replay [mask-valid] ReadMaskPanic(2)
+//@   loop 0 (k):
+//@     invariant 0 <= k && k <= len(tmp) && len(result) == k && fresh(result)
+//@     invariant forall j int :: 0 <= j && j < k ==> projected(result[j], tmp[j].body, filter)
+//@
+//@ property C01 C04 C05 C06 C07
 //@ // ---- the goroutine that forwards a Value's events to one subscriber (C04, C06, C16 suppression step, C10 close) ----
 //@ // The bus of a Value only ever carries *ValueChange (see set#post.event-value); the seed comes from onUpdate.
 //@ func (*Value).Pull$1()
 //@   requires wfValue(r) && filter != nil && typedEvents != nil && !isnil(ctx)
 //@   requires chanSent(typedEvents) == 0 && !chanClosed(typedEvents)
 //@   requires forall k int :: istype(chanSeq(on, k), *ValueChange) && cast(chanSeq(on, k), *ValueChange) != nil && !cast(chanSeq(on, k), *ValueChange).SeedValue && allocated(cast(chanSeq(on, k), *ValueChange))
-//@   requires [masks-valid] filter.fields == nil     // a read mask is validated by whoever accepts it from a request (C06 finding otherwise)
+//@   requires [masks-valid] filter.fields == nil || (forall m proto.Message :: !isnil(m) ==> pathsvalid(filter.fields.Paths, m))     // whoever accepts a read mask validates it (C06 finding at the public entry points)
 //@   // seed: at most one, only when there is a current value, flagged seed and last-seed, with the stored change time
 //@   onsend typedEvents [seed]: sent != nil && (sent.SeedValue ==> !isnil(currentValue) && sent.LastSeedValue && sent.ChangeTime == changeTime && projected(sent.Value, currentValue, filter) && chanSent(typedEvents) == 0)
 //@   // updates: exactly the received event, projected; never equivalent to what the subscriber already holds
@@ -168,13 +350,12 @@ package resource
 //@ // ---- the goroutine that forwards a Collection's events to one subscriber (C04 seeds/edit script, C08 include before
 //@ // mask and equivalence, C06 projection, C10 close) ----
 //@ property C04 C06 C08 C10
-//@ pure func sortedById(vs) = forall i int, j int :: 0 <= i && i < j && j < len(vs) ==> vs[i].id <= vs[j].id
 //@
 //@ func (*Collection).Pull$1()
 //@   requires c != nil && c.config != nil && filter != nil && readConfig != nil && send != nil && !isnil(ctx)
 //@   requires chanSent(send) == 0 && !chanClosed(send)
 //@   requires forall k int :: istype(chanSeq(emit, k), *CollectionChange) && cast(chanSeq(emit, k), *CollectionChange) != nil && !cast(chanSeq(emit, k), *CollectionChange).SeedValue && allocated(cast(chanSeq(emit, k), *CollectionChange))
-//@   requires [masks-valid] filter.fields == nil
+//@   requires [masks-valid] filter.fields == nil || (forall m proto.Message :: !isnil(m) ==> pathsvalid(filter.fields.Paths, m))
 //@   track include
 //@   // seeds: the snapshot in id order, kind ADD, stored change time, flagged seed, exactly the final one flagged last-seed
 //@   onsend send [seed]: sent != nil && (sent.SeedValue ==> chanSent(send) < len(currentValues) && sent.Id == currentValues[chanSent(send)].id &&
